@@ -1511,4 +1511,21 @@ example :
     Indep t1 t2 ∧ (applyTx (applyTx blkSt t1) t2).total = (applyTx (applyTx blkSt t2) t1).total :=
   ⟨⟨by decide, by decide, by decide, by decide⟩, by decide⟩
 
+-- ================================================================== why `play` with a non-empty pool needs a hypothesis
+
+-- In the model (as in `PlayAndRepost`) the transactions of a block are admitted against the state WITH the pool
+-- applied. A block transaction may therefore spend an output of a pending transaction that is not in the block:
+-- `play` accepts the block and keeps the pending transaction, but the block cannot be replayed on the canonical state
+-- of its parent (a fresh replica refuses it). A future `play_refines` for non-empty pools has to assume that block
+-- transactions do not cite pending transactions outside the block. Concretely: node at block 2 of `wkEnv` with
+-- transaction 22 pending; block 4 = { 41 }, where 41 spends output (22, 0).
+private def wkEnv4 : Env := { wkEnv with
+  txs := wkEnv.txs ++ [(41, ⟨41, false, [⟨22, 0, "u2", 4, 0, false⟩], [⟨"u9", 4, 0⟩], [], []⟩)],
+  blocks := wkEnv.blocks ++ [(4, ⟨4, some 2, 3, [41], "m4"⟩)] }
+
+example :
+    let s : St := { applyPool wkEnv4 [22] (canon wkEnv4 wkG 2) with pool := [22] }
+    (play wkEnv4 s 0 (wkEnv4.block 4)).2 = .ok ∧ (play wkEnv4 s 0 (wkEnv4.block 4)).1.pool = [22] ∧
+    (todoBlock wkEnv4 (canon wkEnv4 wkG 2) 0 (wkEnv4.block 4)).isSome = false := by decide
+
 end XV.C01
